@@ -43,6 +43,15 @@ theorem moduleAccount_iff (s : State) : C05.ModuleAccount s ↔ ∀ d, gap s d =
 /-- every farmer record belongs to a stored pool -/
 def FarmerPool (s : State) : Prop := ∀ a id f, getFarmer s a id = some f → ∃ p, getPool s id = some p
 
+/-- ghost bookkeeping of one rule of pool `(id, p)`: budget conservation (C06(a)) and
+refund-at-most-once (C06(a')) -/
+def RuleGhost (s : State) (id : PoolId) (p : Pool) (r : Rule) : Prop :=
+  C06.RuleConserved r ∧ r.nRefund ≤ 1 ∧
+  (r.nRefund = 1 → r.remaining = 0 ∧ C06.active s id p = false ∧ p.endH ≤ s.height) ∧
+  (r.nRefund = 0 → r.refunded = 0)
+
+def GhostOK (s : State) : Prop := ∀ id p, getPool s id = some p → ∀ r ∈ p.rules, RuleGhost s id p r
+
 /-- the components that also hold in the intermediate states of a handler -/
 structure Core (s : State) : Prop where
   hnn    : 0 ≤ s.height
@@ -52,6 +61,7 @@ structure Core (s : State) : Prop where
   budget : C06.BudgetOK s
   debt   : DebtOK s
   fpool  : FarmerPool s
+  ghost  : GhostOK s
 
 /-- the invariant bundle (everything that holds as long as no operation of the F-farm-2
 class has been executed) -/
@@ -59,6 +69,36 @@ structure Inv (s : State) : Prop where
   core   : Core s
   stakes : Stakes s
   modacc : C05.ModuleAccount s
+
+/-! ### ghost bookkeeping -/
+
+theorem RuleGhost.transfer {s s' : State} {id : PoolId} {p p' : Pool} {r : Rule} (h : RuleGhost s id p r)
+    (hact : C06.active s id p = false → C06.active s' id p' = false)
+    (hend : p.endH ≤ s.height → p'.endH ≤ s'.height) : RuleGhost s' id p' r :=
+  ⟨h.1, h.2.1, fun e => ⟨(h.2.2.1 e).1, hact (h.2.2.1 e).2.1, hend (h.2.2.1 e).2.2⟩, h.2.2.2⟩
+
+theorem RuleGhost.stepped {s s' : State} {id : PoolId} {p p' : Pool} {r r' : Rule} {i L : Nat} (h : RuleGhost s id p r)
+    (hst : Stepped i L r r')
+    (hact : C06.active s id p = false → C06.active s' id p' = false)
+    (hend : p.endH ≤ s.height → p'.endH ≤ s'.height) : RuleGhost s' id p' r' := by
+  obtain ⟨_, htot, _, hrem, hrel, hrf, hnr, _⟩ := stepped_facts hst
+  obtain ⟨c, n1, n2, n3⟩ := h
+  unfold C06.RuleConserved at c
+  refine ⟨by unfold C06.RuleConserved; omega, by omega, ?_, by intro e; rw [hrf]; exact n3 (by omega)⟩
+  intro e
+  obtain ⟨a1, a2, a3⟩ := n2 (by omega)
+  exact ⟨by omega, hact a2, hend a3⟩
+
+/-- an active pool has not been refunded -/
+theorem ghost_active {s : State} {id : PoolId} {p : Pool} (hg : ∀ r ∈ p.rules, RuleGhost s id p r)
+    (hact : C06.active s id p = true) : ∀ r ∈ p.rules, r.nRefund = 0 ∧ r.refunded = 0 := by
+  intro r hr
+  obtain ⟨_, n1, n2, n3⟩ := hg r hr
+  have : r.nRefund = 0 := by
+    by_cases e : r.nRefund = 1
+    · have := (n2 e).2.1; rw [hact] at this; cases this
+    · omega
+  exact ⟨this, n3 this⟩
 
 /-! ### pool-local predicates under store updates -/
 
